@@ -95,14 +95,16 @@ namespace avel {
 
     [[nodiscard]]
     AVEL_FINL std::int64_t negate(bool m, std::int64_t x) {
-        std::int64_t mask = -m;
-        return (x ^ mask) - mask;
+        //Computed on the unsigned type so that negating the minimum value wraps instead of overflowing
+        std::uint64_t mask = -std::uint64_t(m);
+        return std::int64_t((std::uint64_t(x) ^ mask) - mask);
     }
 
     [[nodiscard]]
     AVEL_FINL std::int64_t abs(std::int64_t x) {
         if (x < 0) {
-            return -x;
+            //Negated on the unsigned type so that the minimum value wraps instead of overflowing
+            return std::int64_t(std::uint64_t(0) - std::uint64_t(x));
         } else {
             return x;
         }
